@@ -15,19 +15,81 @@ package core
 // wfExe: the representation invariant of an Execution (what NewExecution establishes).
 //@ spec wfExe(x) = x != nil ==> x.Events != nil && x.Events.Traces != nil
 
-// The function wrapped by a FuncAction. Profile `any`: no frame, may return
-// anything well-formed. Profile `pure`: does not modify what it is given.
+// wfSpec: what Compile establishes and nothing in core breaks: nodes and
+// branches are non-nil. Step/Walk on a spec edited by the host after
+// compilation are outside every claim.
+//@ spec wfBranches(b) = b != nil ==> forall i int :: 0 <= i && i < len(b.Branches) ==> b.Branches[i] != nil
+//@ spec wfSpec(s) = forall k string :: (k in s.Nodes) ==> s.Nodes[k] != nil && wfBranches(s.Nodes[k].Branches)
+
+// The function wrapped by a FuncAction. Profile `any`: may return anything
+// well-formed, may change the bindings map it is given (and whatever it
+// allocates itself), nothing else. Profile `pure`: changes nothing it is given.
 //@ sig core.ActionFunc(ctx, bs, props) returns (exe, err)
 //@   ensures wfExe(exe)
 //@   modifies[;profile=pure] nothing
+//@   modifies[;profile=any] bs
+
+// The Action interface as seen by Step and try. `exe != nil` is proved for
+// FuncAction (below) and assumed for Action implementations written by a host.
+//@ iface core.Action.Exec(recv, ctx, bs, props) returns (exe, err)
+//@   ensures exe != nil && wfExe(exe)
+//@   modifies[;profile=pure] nothing
+//@   modifies[;profile=any] bs
 
 //@ func (*FuncAction).Exec returns exe, err
 //@   safety C07, C18
 //@   calls a.F as sig:core.ActionFunc
 //@   requires a != nil ==> a.F != nil
+//@   modifies[C06,C12;profile=pure] nothing
 //@   ensures[C07] nonnil: exe != nil && wfExe(exe)
 //@   ensures[C18] perm: a != nil && exe.Bs != nil ==> forall p string :: hasSuffix(p, "!") && old(p in bs) ==> (p in exe.Bs) && exe.Bs[p] == old(bs[p])
 //@   loop 0 modifies permanent
 //@   loop 0 invariant[C18] collected: forall k string :: seen(0)[k] && hasSuffix(k, "!") ==> (k in permanent) && permanent[k] == bs[k]
 //@   loop 1 modifies exe.Bs
 //@   loop 1 invariant[C18] restored: forall k string :: seen(1)[k] ==> (k in exe.Bs) && exe.Bs[k] == permanent[k]
+
+//@ func (*Events).AddEvents
+//@   safety C07
+//@   requires es != nil && es.Traces != nil && (more != nil ==> more.Traces != nil)
+//@   modifies es, es.Traces, es.Emitted, es.Traces.Messages
+//@   ensures es.Traces == old(es.Traces)
+//@   loop 0 invariant es.Traces == old(es.Traces) && more.Traces == old(more.Traces)
+//@   loop 0 invariant backing(es.Emitted) == old(backing(es.Emitted)) || fresh(es.Emitted)
+//@   loop 1 invariant backing(es.Traces.Messages) == old(backing(es.Traces.Messages)) || fresh(es.Traces.Messages)
+
+//@ func (*Branch).target returns r
+//@   safety C07
+//@   requires b != nil
+//@   modifies[C06,C12] nothing
+
+//@ func (*Branch).try returns st, ts, err
+//@   safety C07
+//@   requires b != nil
+//@   modifies[C06,C12;profile=pure] nothing
+//@   modifies[;profile=any] bs
+//@   ensures[C07] ts != nil
+//@   loop 0 invariant fresh(ts) && fresh(ts.Messages)
+
+//@ func (*Branches).consider returns st, ts, consumed, err
+//@   safety C07
+//@   requires wfBranches(b)
+//@   modifies[C06,C12;profile=pure] nothing
+//@   modifies[;profile=any] bs
+//@   ensures[C07] ts != nil
+//@   loop 0 invariant fresh(ts) && fresh(ts.Messages)
+
+//@ func (*Spec).Step returns stride, err
+//@   safety C07
+//@   requires s != nil && st != nil && wfSpec(s)
+//@   modifies[C06,C12;profile=pure] nothing
+
+// A breakpoint predicate supplied by the host: assumed not to modify anything.
+//@ sig core.Breakpoint(ctx, st) returns (hit)
+//@   modifies nothing
+
+//@ func (*Spec).Walk returns walked, err
+//@   safety C07
+//@   calls breakpoint as sig:core.Breakpoint
+//@   requires s != nil && st != nil && wfSpec(s)
+//@   requires c != nil ==> c.Limit >= 0
+//@   modifies[C06,C12;profile=pure] nothing
